@@ -596,6 +596,18 @@ class _Case:
                 self.finding("restart-graph-differs:inp_digest-only",
                              f"after a kill at {point} and the restart only step inp_digest values differ: {digest[:2]}",
                              point=point, differences=digest[:10])
+            # the completion of a step is one transaction: state, output hashes and the recorded outcome
+            # (return code, captured output) are there together or not at all
+            no_outcome = [lbl for (lbl,) in sim.query(
+                f"SELECT label FROM node JOIN step ON step.node = node.i WHERE NOT detached AND step.state = {SUCCEEDED} "
+                "AND EXISTS (SELECT 1 FROM step_hash WHERE step_hash.node = node.i) "
+                "AND NOT EXISTS (SELECT 1 FROM step_outcome WHERE step_outcome.node = node.i)")]
+            self.count("restarts-outcome-rows-checked")
+            if no_outcome:
+                self.finding("succeeded-step-without-recorded-outcome",
+                             f"after a kill at {point} and the restart the steps {no_outcome[:4]} are SUCCEEDED with a stored "
+                             f"hash but have no recorded outcome (return code, output): the completion was not atomic",
+                             point=point, steps=no_outcome)
             if not (extra or missing or differ or scope or digest):
                 self.count("restarts-identical-to-reference")
 
